@@ -6,7 +6,7 @@ import concurrent.futures as cf
 from lib import common as C
 from checks import hsim
 
-MODEL = {"mutex": "rwspec", "rw": "rwspec", "qrw": "rwspec", "sem": "semlog", "semd": "semlog", "semooo": "semlog", "cond": "ringlog"}
+MODEL = {"mutex": "rwspec", "rw": "rwspec", "qrw": "rwspec", "sem": "semlog", "semd": "semlog", "semooo": "semlog", "semtight": "semlog", "cond": "ringlog"}
 
 
 def gen(r, what, big):
@@ -17,6 +17,8 @@ def gen(r, what, big):
     if what in ("mutex", "rw", "qrw"):
         return ["lock %s %d %d %d %s %s %d" % (what, nv, r.choice([1, 2, 3]), r.choice([100, 300] if not big else [300, 1000]), r.choice("nyys"),
                                                 r.choice(["inf", "inf", "100", "1000"]), r.choice([10, 30, 100]))]
+    if what == "sem" and r.random() < 0.25:
+        return ["semtight %d %d %d" % (r.choice([100000, 300000] if not big else [300000, 1000000]), r.choice([0, 1, 1]), r.choice([1, 2, 3]))]
     if what == "sem" and r.random() < 0.35:
         return ["semooo %d %d" % (r.choice([3, 24]), r.choice([20000, 50000] if not big else [100000, 300000]))]
     if what == "sem":
@@ -42,9 +44,15 @@ def run(rep, prop, kinds, tier, seed, replay_prog=None):
     if replay_prog:
         progs = [replay_prog] * 5
     else:
+        import os
         r = C.rng(seed, "mv_sync_" + prop)
         n = 40 if tier == "thorough" else 8
-        progs = [gen(r, k, tier == "thorough") for k in kinds for _ in range(n)]
+        progs = []
+        cp = os.path.join(C.VERIF, "corpus", prop + "mv")
+        if os.path.isdir(cp):
+            for f in sorted(os.listdir(cp)):
+                progs.append([l.rstrip("\n") for l in open(os.path.join(cp, f)) if l.strip() and not l.startswith("#")])
+        progs += [gen(r, k, tier == "thorough") for k in kinds for _ in range(n)]
     groups = {}
     for p in progs:
         groups.setdefault(MODEL[kind_of(p)], []).append(p)
